@@ -627,6 +627,13 @@ fn shape(v: &serde_json::Value) -> serde_json::Value {
     use serde_json::Value;
     match v {
         Value::Object(o) => {
+            // bare positions (e.g. the `...` of a spread element): presence only
+            if o.len() == 2 && o.get("start").map(|v| v.is_number()) == Some(true) && o.get("end").map(|v| v.is_number()) == Some(true) {
+                return Value::Bool(true);
+            }
+            if o.len() == 3 && o.contains_key("start") && o.contains_key("end") && o.contains_key("ctxt") {
+                return Value::Bool(true);
+            }
             let ty = o.get("type").and_then(|t| t.as_str()).unwrap_or("");
             if ty == "ParenthesisExpression" {
                 if let Some(e) = o.get("expression") {
@@ -655,13 +662,23 @@ fn shape(v: &serde_json::Value) -> serde_json::Value {
 /// Does swc's own hygiene + fixer + codegen print `m` as text that parses back to the same
 /// program? (Seen not to: `((a, b) as any)` loses its parentheses.) None = cannot tell.
 pub fn print_is_faithful(t: &Transformed, m: &Module) -> Option<bool> {
+    // compare what is printed (after hygiene renamed bindings, before the fixer added the
+    // parentheses the text needs) with what the text parses to
+    let mut renamed = m.clone();
+    quiet_catch(|| renamed.visit_mut_with(&mut hygiene())).ok()?;
+    let m = &renamed;
     let code = t.print_final(m).ok()?;
     let lang = t.lang;
     let back = GLOBALS.set(&Globals::new(), || {
         let cm: Lrc<SourceMap> = Default::default();
         parse(&cm, &code, lang.syntax(true), None).ok()
     })?;
-    Some(shape(&module_json(m)) == shape(&module_json(&back)))
+    let (a, b) = (shape(&module_json(m)), shape(&module_json(&back)));
+    if a != b && std::env::var("VJX_DEBUG_FAITHFUL").is_ok() {
+        let _ = std::fs::write("/tmp/faithful_a.json", serde_json::to_string_pretty(&a).unwrap_or_default());
+        let _ = std::fs::write("/tmp/faithful_b.json", serde_json::to_string_pretty(&b).unwrap_or_default());
+    }
+    Some(a == b)
 }
 
 
